@@ -176,9 +176,16 @@ impl BDF {
             .fold(Float::INFINITY, Float::min)
             .max(Float::EPSILON);
         let mut newton_tol_val = self.newton_tol.unwrap_or_else(|| {
-            let eps_term = 10.0 * Float::EPSILON / rtol_min;
-            let sqrt_term = rtol_min.sqrt().min(0.03);
-            eps_term.max(sqrt_term)
+            // The rule max(10 eps / rtol, min(0.03, sqrt(rtol))) is meant for rtol well above
+            // rounding level; for (nearly) pure absolute control it would give a tolerance of
+            // order 10 in units of the error scale, so the customary cap of 0.03 is used there
+            if rtol_min < 1000.0 * Float::EPSILON {
+                0.03
+            } else {
+                let eps_term = 10.0 * Float::EPSILON / rtol_min;
+                let sqrt_term = rtol_min.sqrt().min(0.03);
+                eps_term.max(sqrt_term)
+            }
         });
         if newton_tol_val <= 0.0 {
             newton_tol_val = 1e-9;
